@@ -16,7 +16,7 @@ from harness.core import Machinery
 PROP = "C19"
 
 ALIAS_FAMS = ["access1", "plot1", "export", "mutate", "edit", "copy", "chunk"]
-ALL_ACTS = ["Access", "ToXarray", "ToGdf", "ToPoly", "ToLine", "Mutate", "EditExport", "EditReturned", "Copy", "Chunk"]
+ALL_ACTS = ["Access", "ToXarray", "ToGdf", "ToPoly", "ToLine", "Mutate", "EditExport", "EditReturned", "EditInput", "Copy", "Chunk"]
 
 # handle 1 is built from each of these in turn: every constructor and input container kind
 SOURCES1 = ["t_nd_std1", "t_nd_m1_0", "t_nd_std0", "t_list_m1_1", "t_nd_none1", "v_nd_ll", "v_list_xyz", "d_ugrid", "quadhex", "cube_xyz", "ugrid_edges"]
@@ -37,6 +37,11 @@ def model_phase(ctx):
     if r.violated != "NoSharedDatasets":
         raise Machinery("a copy route that keeps the original's grid does not violate NoSharedDatasets in the model: %r" % r)
     found["copy_route_shares"] = r.depth
+    c = gc.cfg("MechInputShares", ALIAS_FAMS, (1, 2), (1,), 2, ["HandleSeesOwnVersion"])
+    r = ctx.tlc("GridLazy", c, what="GridLazy(MechInputShares) must violate HandleSeesOwnVersion", workers=4, count=False, timeout=600)
+    if r.violated != "HandleSeesOwnVersion":
+        raise Machinery("a grid that keeps the caller's buffers does not violate HandleSeesOwnVersion in the model: %r" % r)
+    found["input_buffers_kept"] = r.depth
     ctx.note("pinned_mechanism_counterexamples", found)
 
 
@@ -95,7 +100,7 @@ def run(ctx):
     hs = gc.generate(ctx, ALIAS_FAMS, 3, ALL_ACTS, "all histories of three steps over the aliasing alphabet (grid 1 and its copy)", handles=(1, 2), base=(1,), workers=8, max_mut=2)
     n_all = len(hs)
     # a history without a mutator, edit or copy says nothing about aliasing
-    hs = [h for h in hs if any(st[0] in ("Mutate", "EditExport", "EditReturned", "Copy") for st in h)]
+    hs = [h for h in hs if any(st[0] in ("Mutate", "EditExport", "EditReturned", "EditInput", "Copy") for st in h)]
     if not thorough:
         rng.shuffle(hs)
         hs = hs[:3600]
